@@ -5,20 +5,30 @@ package c10
 //	footprint  each public method of each type is called on a populated
 //	           instance while this goroutine holds the instance lock (or the
 //	           lock of a sub-object): the call parks on that lock iff the
-//	           table says the method takes it.
+//	           table says the method takes it.  A readers-writer lock is held
+//	           twice: in exclusive mode (every method that takes it in either
+//	           mode parks) and in shared mode (exactly the methods that take
+//	           it in exclusive mode park).  A type whose lock is of no kind
+//	           the table knows is called with nothing held (mode "none").
 //	watchdog   each public method of each type is called in every state its
 //	           helper paths depend on (populated / empty / growing through
 //	           the re-hash thresholds / bound in force and reached, with
 //	           existing and with fresh keys): returned | panicked | timeout;
 //	           afterwards Size() (or another lock-taking call) must still
 //	           come back: a method that returned but kept the lock shows here.
+//	           A method that takes another instance of its own type
+//	           (PutAll(other)) is also handed its own receiver (x.m(x)) and
+//	           run crosswise on two instances from two goroutines (a.m(b)
+//	           against b.m2(a), for every such m2).
 //
 // Both go through the methods the COMPILED type has (reflection); the list is
 // logged ("Methods") and must equal the table's.
 
 import (
 	"fmt"
+	"runtime"
 	"sort"
+	"sync/atomic"
 	"time"
 
 	"verifharness/core"
@@ -93,58 +103,64 @@ func runFootprint(c *core.Ctx, tab *Table) error {
 			paths = append(paths, []string{s[0]})
 		}
 		for _, path := range paths {
-			for _, m := range ms {
-				obj, err := newPopulated(tn)
-				if err != nil {
-					return err
-				}
-				call, err := caller(obj, tn, m, 2)
-				if err != nil {
-					return err
-				}
-				mu, err := lockOf(tab, tn, obj, path)
-				if err != nil {
-					return err
-				}
-				mu.Lock()
-				done := make(chan string, 1)
-				go func() { done <- core.Guard(call) }()
-				blocked, decided := false, false
-				start := time.Now()
-				var first string
-				for !decided {
-					select {
-					case first = <-done:
-						decided = true
-					default:
-						if waiters(mu) > 0 {
-							blocked, decided = true, true
-						} else if time.Since(start) > 3*watchdog {
-							mu.Unlock()
-							return fmt.Errorf("footprint %s.%s (lock %v): neither returned nor parked on the lock within %v", tn, m, path, 3*watchdog)
-						} else {
-							time.Sleep(100 * time.Microsecond)
+			held, err := lockOf(tab, tn, probe, path)
+			if err != nil {
+				return err
+			}
+			for _, mode := range held.modes() {
+				for _, m := range ms {
+					obj, err := newPopulated(tn)
+					if err != nil {
+						return err
+					}
+					call, err := caller(obj, tn, m, 2)
+					if err != nil {
+						return err
+					}
+					mu, err := lockOf(tab, tn, obj, path)
+					if err != nil {
+						return err
+					}
+					mu.lock(mode)
+					done := make(chan string, 1)
+					go func() { done <- core.Guard(call) }()
+					blocked, decided := false, false
+					start := time.Now()
+					var first string
+					for !decided {
+						select {
+						case first = <-done:
+							decided = true
+						default:
+							if mu.parked(mode) > 0 {
+								blocked, decided = true, true
+							} else if time.Since(start) > 3*watchdog {
+								mu.unlock(mode)
+								return fmt.Errorf("footprint %s.%s (lock %v held in mode %s): neither returned nor parked on the lock within %v", tn, m, path, mode, 3*watchdog)
+							} else {
+								time.Sleep(100 * time.Microsecond)
+							}
 						}
 					}
-				}
-				mu.Unlock()
-				after := "returned"
-				if blocked {
-					select {
-					case first = <-done:
-					case <-time.After(watchdog):
-						after = "timeout"
+					mu.unlock(mode)
+					after := "returned"
+					if blocked {
+						select {
+						case first = <-done:
+						case <-time.After(watchdog):
+							after = "timeout"
+						}
 					}
+					if after == "returned" && first != "" {
+						after = "panicked"
+					}
+					pp := path
+					if pp == nil {
+						pp = []string{}
+					}
+					t.Emit(core.Ev{"ev": "Footprint", "t": tn, "m": m, "p": pp, "mode": mode, "blocked": blocked, "after": after})
+					c.Count(fmt.Sprintf("fp|%s|%s|%v|%s", tn, m, path, mode), true)
 				}
-				if after == "returned" && first != "" {
-					after = "panicked"
-				}
-				pp := path
-				if pp == nil {
-					pp = []string{}
-				}
-				t.Emit(core.Ev{"ev": "Footprint", "t": tn, "m": m, "p": pp, "blocked": blocked, "after": after})
-				c.Count(fmt.Sprintf("fp|%s|%s|%v", tn, m, path), true)
 			}
 		}
 		t.Emit(core.Ev{"ev": "Done"})
@@ -164,7 +180,69 @@ func runFootprint(c *core.Ctx, tab *Table) error {
 //	           crosses the default threshold twice; a removing one misses)
 //	full       bound 3 in force and reached (SetMax / queue capacity), then 12
 //	           calls alternating fresh and existing keys
-var wdVariants = []string{"populated", "empty", "growing", "full"}
+//	self       (methods taking another instance of the receiver's type) 5
+//	           elements, one call handed the receiver itself: x.m(x)
+//	cross      (the same methods) two instances of 5 elements and two
+//	           goroutines, a.m(b) against b.m2(a), crossRounds times in lockstep
+//	           rounds, for every such method m2 from m on (event field "with")
+var wdVariants = []string{"populated", "empty", "growing", "full", "self", "cross"}
+
+const crossRounds = 3000
+
+// cross runs a.m1(b) on one goroutine against b.m2(a) on another, round by
+// round (a spin barrier before each call, so that the two calls of a round
+// begin within nanoseconds of each other), under the watchdog.
+func cross(tn, m1, m2 string) (string, error) {
+	a, err := newPopulated(tn)
+	if err != nil {
+		return "", err
+	}
+	b, err := newPopulated(tn)
+	if err != nil {
+		return "", err
+	}
+	c1, err := caller(a, tn, m1, 2, b)
+	if err != nil {
+		return "", err
+	}
+	c2, err := caller(b, tn, m2, 2, a)
+	if err != nil {
+		return "", err
+	}
+	round := make([]int32, crossRounds)
+	res := make(chan string, 2)
+	for _, call := range []func(){c1, c2} {
+		call := call
+		go func() {
+			out := "returned"
+			for i := 0; i < crossRounds; i++ {
+				atomic.AddInt32(&round[i], 1)
+				for spins := 0; atomic.LoadInt32(&round[i]) < 2 && spins < 1<<16; spins++ {
+					if spins%256 == 255 {
+						runtime.Gosched()
+					}
+				}
+				if core.Guard(call) != "" {
+					out = "panicked"
+				}
+			}
+			res <- out
+		}()
+	}
+	out := "returned"
+	deadline := time.After(watchdog)
+	for i := 0; i < 2; i++ {
+		select {
+		case o := <-res:
+			if o != "returned" {
+				out = o
+			}
+		case <-deadline:
+			return "timeout", nil
+		}
+	}
+	return out, nil
+}
 
 func wdKeys(variant string) []int {
 	switch variant {
@@ -243,6 +321,32 @@ func runWatchdog(c *core.Ctx, tab *Table) error {
 					} else if !ok {
 						continue
 					}
+				case "self":
+					if !takesPeer(first, m) {
+						continue
+					}
+					if obj, err = newPopulated(tn); err != nil {
+						return err
+					}
+				case "cross":
+					if !takesPeer(first, m) {
+						continue
+					}
+					for _, m2 := range ms {
+						if m2 < m || !takesPeer(first, m2) || timeouts >= 6 {
+							continue
+						}
+						out, err := cross(tn, m, m2)
+						if err != nil {
+							return err
+						}
+						if out == "timeout" {
+							timeouts++
+						}
+						t.Emit(core.Ev{"ev": "Outcome", "t": tn, "m": m, "with": m2, "out": out, "on": variant, "calls": 2 * crossRounds})
+						c.Count(fmt.Sprintf("wd|%s|%s|%s|%s", tn, m, variant, m2), true)
+					}
+					continue
 				}
 				keys := wdKeys(variant)
 				if waitsWhenEmpty(tn, m) { // one call, while there is something to take
@@ -250,7 +354,11 @@ func runWatchdog(c *core.Ctx, tab *Table) error {
 				}
 				var calls []func()
 				for _, k := range keys {
-					call, err := caller(obj, tn, m, k)
+					var peer interface{}
+					if variant == "self" {
+						peer = obj
+					}
+					call, err := caller(obj, tn, m, k, peer)
 					if err != nil {
 						calls = nil
 						if vi == 0 {
